@@ -239,15 +239,18 @@ pub fn vector_strategy(n: usize) -> BoxedStrategy<Vec<i16>> {
 
 /// Messages: lengths chosen so that 40 + len straddles the SHAKE-256 rate (136) and its multiples.
 pub fn message_strategy() -> BoxedStrategy<Vec<u8>> {
+    // every length up to 600 has weight (a defect may live in any window of lengths), with extra
+    // weight on: empty and tiny messages, 40 + len at a multiple of the SHAKE-256 rate (136) +-2,
+    // powers of two +-2, and a thin tail of long messages
     let len = prop_oneof![
         2 => Just(0usize),
         2 => 1usize..3,
-        6 => 3usize..65,
-        2 => 94usize..99,
-        2 => 230usize..235,
+        5 => 3usize..65,
+        4 => 0usize..600,
+        2 => (1usize..40, 0usize..5).prop_map(|(k, d)| 136 * k - 40 + d - 2),
         1 => 254usize..259,
-        1 => 1000usize..1100,
-        1 => prop_oneof![4094usize..4099, 65534usize..65539],
+        1 => 600usize..5000,
+        1 => prop_oneof![1022usize..1027, 4094usize..4099, 65534usize..65539],
     ];
     let fill = prop_oneof![6 => Just(None), 1 => Just(Some(0u8)), 1 => Just(Some(0xFFu8))];
     (len, fill, any::<u64>())
